@@ -255,3 +255,170 @@ func runC18_8(c *core.Ctx) {
 		})
 	}
 }
+
+func init() {
+	register(&core.Rule{ID: "C02.14", Prop: "C02", MinSites: 3,
+		Desc: "leftover of a partial vectored write: the segment loop cuts a segment (X[i] = X[i][B:]) only where the remaining byte budget B is established smaller than that segment, stops right after the cut (the cut is not on a cycle), and otherwise takes the whole segment off the budget (B -= len) before going on",
+		Run: runC02_14})
+}
+
+func runC02_14(c *core.Ctx) {
+	a := outAnchors(c)
+	if a == nil {
+		return
+	}
+	sites := 0
+	for _, f := range a.connMethods() {
+		hasWritev := false
+		for _, call := range callsIn(f.Decl.Body, false) {
+			if _, name := a.streamWrite(f, call); name == "io.Writev" {
+				hasWritev = true
+			}
+		}
+		if !hasWritev {
+			continue
+		}
+		// cuts: X[i] = X[i][B:]
+		type cut struct {
+			as      *ast.AssignStmt
+			seg     string // printed X[i]
+			budget  types.Object
+			loopVar types.Object
+		}
+		var cuts []cut
+		ast.Inspect(f.Decl.Body, func(n ast.Node) bool {
+			as, ok := n.(*ast.AssignStmt)
+			if !ok || len(as.Lhs) != 1 || len(as.Rhs) != 1 {
+				return true
+			}
+			ie, ok := ast.Unparen(as.Lhs[0]).(*ast.IndexExpr)
+			if !ok {
+				return true
+			}
+			se, ok := ast.Unparen(as.Rhs[0]).(*ast.SliceExpr)
+			if !ok || se.Low == nil || se.High != nil || exprStr(se.X) != exprStr(ie) {
+				return true
+			}
+			if b := flow.ObjOf(f.Info, se.Low); b != nil {
+				cuts = append(cuts, cut{as, exprStr(ie), b, flow.ObjOf(f.Info, ie.Index)})
+			}
+			return true
+		})
+		g := f.Graph()
+		for k, ct := range cuts {
+			ct := ct
+			sites++
+			// variables holding len(X[i])
+			lenVars := map[types.Object]bool{}
+			isLenSeg := func(e ast.Expr) bool {
+				e = ast.Unparen(e)
+				if call, ok := e.(*ast.CallExpr); ok && len(call.Args) == 1 {
+					if id, ok := call.Fun.(*ast.Ident); ok && id.Name == "len" && exprStr(call.Args[0]) == ct.seg {
+						return true
+					}
+				}
+				return lenVars[flow.ObjOf(f.Info, e)] && flow.ObjOf(f.Info, e) != nil
+			}
+			ast.Inspect(f.Decl.Body, func(n ast.Node) bool {
+				if as, ok := n.(*ast.AssignStmt); ok && len(as.Lhs) == 1 && len(as.Rhs) == 1 {
+					if call, ok := ast.Unparen(as.Rhs[0]).(*ast.CallExpr); ok && len(call.Args) == 1 {
+						if id, ok := call.Fun.(*ast.Ident); ok && id.Name == "len" && exprStr(call.Args[0]) == ct.seg {
+							if o := flow.ObjOf(f.Info, as.Lhs[0]); o != nil {
+								lenVars[o] = true
+							}
+						}
+					}
+				}
+				return true
+			})
+			// (1) established B < len(X[i]) at the cut
+			const fSmaller = 1
+			p := &flow.Problem{Must: true}
+			p.Node = func(b *flow.Block, i int, n ast.Node, in uint64) uint64 {
+				for _, l := range flow.Assigned(n) {
+					if o := flow.ObjOf(f.Info, l); o == ct.budget || (o != nil && o == ct.loopVar) {
+						in = 0
+					}
+				}
+				return in
+			}
+			p.Edge = func(e *flow.Edge, in uint64) uint64 {
+				if e.Cond == nil || e.Tag != nil {
+					return in
+				}
+				x, y, op, ok := flow.Cmp(e.Cond)
+				if !ok {
+					return in
+				}
+				if flow.ObjOf(f.Info, x) == ct.budget && isLenSeg(y) && ((op == token.LSS && e.Sense) || (op == token.GEQ && !e.Sense)) {
+					in |= fSmaller
+				}
+				if flow.ObjOf(f.Info, y) == ct.budget && isLenSeg(x) && ((op == token.GTR && e.Sense) || (op == token.LEQ && !e.Sense)) {
+					in |= fSmaller
+				}
+				return in
+			}
+			sol := g.Solve(p)
+			var cutBlock *flow.Block
+			established := false
+			sol.Walk(func(b *flow.Block, i int, n ast.Node, before uint64) {
+				if n == ast.Node(ct.as) {
+					cutBlock = b
+					established = before&fSmaller != 0
+				}
+			})
+			construct := "cut " + ct.seg + " #" + itoa(k+1)
+			c.Check(established, f.Name, construct+" only when the budget ends inside the segment", ct.as.Pos(), ct.budget.Name()+" < len("+ct.seg+") established",
+				"the segment "+ct.seg+" is cut at "+ct.budget.Name()+" where "+ct.budget.Name()+" < len("+ct.seg+") is not established: a fully sent segment is kept (sent twice) or the slice goes out of range")
+			// (2) the statements after the cut, in its own block, leave the segment loop
+			onCycle := true
+			ast.Inspect(f.Decl.Body, func(n ast.Node) bool {
+				blk, ok := n.(*ast.BlockStmt)
+				if !ok {
+					return true
+				}
+				for i, st := range blk.List {
+					if st != ast.Stmt(ct.as) {
+						continue
+					}
+					rest := blk.List[i+1:]
+					if len(rest) > 0 {
+						switch last := rest[len(rest)-1].(type) {
+						case *ast.BranchStmt:
+							if last.Tok == token.BREAK || last.Tok == token.GOTO {
+								onCycle = false
+							}
+						case *ast.ReturnStmt:
+							onCycle = false
+						}
+					}
+				}
+				return true
+			})
+			c.Check(cutBlock != nil && !onCycle, f.Name, construct+" ends the scan", ct.as.Pos(), "no path leads from the cut back into the loop",
+				"after cutting "+ct.seg+" the segment loop goes on: the following segments are measured against a budget that was already used up and are cut or skipped as well – unsent bytes are dropped from the stream")
+			// (3) the budget is reduced by the whole segment elsewhere in the loop
+			reduced := false
+			ast.Inspect(f.Decl.Body, func(n ast.Node) bool {
+				as, ok := n.(*ast.AssignStmt)
+				if !ok || len(as.Lhs) != 1 || len(as.Rhs) != 1 || flow.ObjOf(f.Info, as.Lhs[0]) != ct.budget {
+					return true
+				}
+				switch as.Tok {
+				case token.SUB_ASSIGN:
+					reduced = reduced || isLenSeg(as.Rhs[0])
+				case token.ASSIGN:
+					if be, ok := ast.Unparen(as.Rhs[0]).(*ast.BinaryExpr); ok && be.Op == token.SUB && flow.ObjOf(f.Info, be.X) == ct.budget && isLenSeg(be.Y) {
+						reduced = true
+					}
+				}
+				return true
+			})
+			c.Check(reduced, f.Name, construct+": whole segments come off the budget", ct.as.Pos(), ct.budget.Name()+" -= len("+ct.seg+")",
+				"the byte budget "+ct.budget.Name()+" is never reduced by the length of a fully sent segment: the cut lands in the wrong segment and sent bytes are sent again")
+		}
+	}
+	if sites == 0 {
+		c.Undecided("gnet", "leftover loop of writev", 0, "no segment cut of the form X[i] = X[i][B:] found in the *conn function that calls io.Writev: idiom not recognised")
+	}
+}
